@@ -104,12 +104,13 @@ static void sub_solve() {
 //---------------------------------------------------------------------------
 // pmis / coarsenings alone
 //---------------------------------------------------------------------------
+// (the number of near-null-space vectors is capped per case by the size of the smallest aggregate, see below)
 // sub "pmis": block size 1 with 0..3 near-null-space vectors, or block size 2..3 without near-null space;
 // sub "pmis_bk": block size 2..3 together with 1..3 near-null-space vectors (kept apart: on this tree the column
 // numbering of that combination is wrong, the library then crashes and would take the other cases with it)
 static void sub_pmis(const std::string &sub) {
     World &w = world(); mpi::communicator comm(w.comm); const bool bk = sub == "pmis_bk";
-    long N = bk ? vf::opt_int("pmis_bk_cases", vf::tier(6, 60)) : vf::opt_int("pmis_cases", vf::tier(10, 120));
+    long N = bk ? vf::opt_int("pmis_bk_cases", vf::tier(8, 60)) : vf::opt_int("pmis_cases", vf::tier(16, 120));
     for (long idx = 0; idx < N; ++idx) {
         if (!vf::selected(sub, idx)) continue;
         uint64_t cs = vf::case_seed(sub, idx * 16 + w.size); Rng r(cs); vfm::seed_delays(cs, w.rank);
@@ -124,10 +125,19 @@ static void sub_pmis(const std::string &sub) {
         long n = G.n; Part rp = vfm::random_part(n, w.size, r, b); double eps = r.coin(0.7) ? 0.08 : r.uni(0.02, 0.3);
         std::vector<double> Bf((size_t)n * K); for (long i = 0; i < n; ++i) for (int q = 0; q < K; ++q) Bf[i * K + q] = q == 0 ? 1.0 : r.uni(-1, 1);
         Case c(sub, idx, J().n("ranks", w.size).s("family", p.family).n("n", n).n("block_size", b).n("nullspace_cols", K).n("isolated", isolated.size()).n("eps_strong", eps).s("rows", vfm::part_str(rp)));
-        Csr<double> S = vfm::slice_rows(G, rp[w.rank], rp[w.rank + 1]); size_t nloc = S.n; std::string tag = "b" + std::string(b > 1 ? ">1" : "=1") + ":K" + (K ? ">0" : "=0");
-        Bag bag(w.comm); std::vector<double> Bc_loc; long pcols = 0, pshift = 0; bool threw = false, malformed = false;
+        Csr<double> S = vfm::slice_rows(G, rp[w.rank], rp[w.rank + 1]); size_t nloc = S.n;
+        Bag bag(w.comm); std::vector<double> Bc_loc; long pcols = 0, pshift = 0; bool threw = false, malformed = false; const int Kreq = K; std::string tag;
         try {
             DM A(comm, std::tie(nloc, S.ptr, S.col, S.val), nloc);
+            // Precondition of the near-null-space clause: an aggregate with fewer unknowns than vectors cannot reproduce them (and the
+            // library's QR then reads past its buffer, in the serial tentative_prolongation as well).  The aggregates do not depend on the
+            // vectors, so they are computed once without them and the number of vectors is capped by the smallest aggregate.
+            if (K) { mpi::coarsening::pmis<B>::params p0; p0.eps_strong = eps; p0.block_size = b; mpi::coarsening::pmis<B> a0(A, p0); auto &P0 = *a0.p_tent;
+                std::vector<long> cnt(P0.glob_cols() / b + 1, 0), gc(P0.glob_cols() / b + 1, 0);
+                for (auto part : {P0.local(), P0.remote()}) for (size_t i = 0; i < part->nrows; ++i) for (auto j = part->ptr[i]; j < part->ptr[i + 1]; ++j) cnt[(part->col[j] + (part == P0.local() ? P0.loc_col_shift() : 0)) / b]++;
+                MPI_Allreduce(cnt.data(), gc.data(), (int)cnt.size(), MPI_LONG, MPI_SUM, w.comm); long mn = K; for (size_t a = 0; a + 1 < gc.size(); ++a) mn = std::min(mn, gc[a]);
+                if (mn < K) { vf::obs_sum("nullspace_vectors_capped_by_small_aggregate"); K = (int)mn; std::vector<double> B2((size_t)n * K); for (long i = 0; i < n; ++i) for (int q = 0; q < K; ++q) B2[i * K + q] = Bf[i * Kreq + q]; Bf.swap(B2); } }
+            tag = "b" + std::string(b > 1 ? ">1" : "=1") + ":K" + (K ? ">0" : "=0");
             mpi::coarsening::pmis<B>::params prm; prm.eps_strong = eps; prm.block_size = b; prm.nullspace.cols = K; prm.nullspace.B.assign(Bf.begin() + rp[w.rank] * K, Bf.begin() + rp[w.rank + 1] * K);
             mpi::coarsening::pmis<B> aggr(A, prm); auto &P = *aggr.p_tent;
             pcols = P.glob_cols(); pshift = P.loc_col_shift();
@@ -191,7 +201,7 @@ template <class S, class... Extra> static void run_direct(Case &c, const std::st
 }
 static void sub_direct() {
     World &w = world(); mpi::communicator comm(w.comm);
-    long N = vf::opt_int("direct_cases", vf::tier(12, 150));
+    long N = vf::opt_int("direct_cases", vf::tier(16, 150));
     for (long idx = 0; idx < N; ++idx) {
         if (!vf::selected("direct", idx)) continue;
         uint64_t cs = vf::case_seed("direct", idx * 16 + w.size); Rng r(cs); vfm::seed_delays(cs, w.rank);
